@@ -11,6 +11,7 @@ import (
 	"bytes"
 	"encoding/json"
 	"fmt"
+	"reflect"
 	"runtime"
 	"sort"
 	"strings"
@@ -170,6 +171,10 @@ type world struct {
 	// second honest run on the same input with the same permutation (for splicing)
 	Xb2, Yb2 [][]kyber.Point
 	prf2     []byte
+	// the honest prover closure of the first run (re-run by the families reprove / eqviol) and, for sequences, the
+	// library's prover factory
+	prover    proof.Prover
+	getProver func(e []kyber.Scalar) (proof.Prover, error)
 	// simple shuffle
 	gamma kyber.Scalar
 	Gamma kyber.Point
@@ -263,6 +268,9 @@ func (w *world) pairRun() ([][]kyber.Point, [][]kyber.Point, []byte, error) {
 	prover := func(ctx proof.ProverContext) error {
 		return ps.Prove(w.pi, w.G, w.H, beta, w.X[0], w.Y[0], s.RandomStream(), ctx)
 	}
+	if w.prover == nil {
+		w.prover = prover
+	}
 	prf, err := proof.HashProve(s, protoName, prover)
 	return [][]kyber.Point{Xb}, [][]kyber.Point{Yb}, prf, err
 }
@@ -322,14 +330,16 @@ func (w *world) libRun(res *core.Result, first bool) ([][]kyber.Point, [][]kyber
 	}
 	var Xb, Yb [][]kyber.Point
 	var prover proof.Prover
+	var getProver func(e []kyber.Scalar) (proof.Prover, error)
 	for t := 0; t < tries; t++ {
 		switch w.kind {
 		case "biffle":
 			xb, yb, p := shuffle.Biffle(s, w.G, w.H, [2]kyber.Point{w.X[0][0], w.X[0][1]}, [2]kyber.Point{w.Y[0][0], w.Y[0][1]}, s.RandomStream())
 			Xb, Yb, prover = [][]kyber.Point{xb[:]}, [][]kyber.Point{yb[:]}, p
 		case "seq":
-			xb, yb, getProver := shuffle.SequencesShuffle(s, w.G, w.H, w.X, w.Y, s.RandomStream())
-			p, err := getProver(w.e)
+			xb, yb, gp := shuffle.SequencesShuffle(s, w.G, w.H, w.X, w.Y, s.RandomStream())
+			getProver = gp
+			p, err := gp(w.e)
 			if err != nil {
 				return nil, nil, nil, err
 			}
@@ -355,6 +365,9 @@ func (w *world) libRun(res *core.Result, first bool) ([][]kyber.Point, [][]kyber
 			w.piOK = true
 			res.AddExtra("pi_chosen_by_library_not_the_requested_one", 1)
 		}
+	}
+	if first {
+		w.prover, w.getProver = prover, getProver
 	}
 	prf, err := proof.HashProve(s, protoName, prover)
 	return Xb, Yb, prf, err
@@ -434,7 +447,11 @@ type replayer struct {
 
 func (r *replayer) key(kind string) string {
 	st := r.bh.steps
-	return fmt.Sprintf("%s/%s/%s:%s/%s", r.cfg.Prop, r.s.Name, st[0].Kind, st[2].F, kind)
+	fam := st[2].F
+	if fam == "eqviol" && st[2].A >= 1 && st[2].A <= len(eqFields) {
+		fam += "-" + eqFields[st[2].A-1] // the commitment replaced = the one verification equation violated
+	}
+	return fmt.Sprintf("%s/%s/%s:%s/%s", r.cfg.Prop, r.s.Name, st[0].Kind, fam, kind)
 }
 
 func (r *replayer) violate(kind, what string, detail map[string]any) {
@@ -467,6 +484,7 @@ func (r *replayer) run(w *world) error {
 	X, Y := w.X, w.Y
 	Xb, Yb := cp2(w.Xb), cp2(w.Yb)
 	prf := append([]byte(nil), w.prf...)
+	e := w.e
 	q := adv.B - 1 // sequence index for the output families that carry it in b
 	certify := true
 	unw := false
@@ -569,6 +587,42 @@ func (r *replayer) run(w *world) error {
 			Y[0][adv.A-1], _ = s.AlterPoint(Y[0][adv.A-1])
 		}
 		certify = false
+	case "reprove":
+		// completeness under re-use of the honest prover on the same shuffle result
+		p := w.prover
+		if adv.A == 2 {
+			e = make([]kyber.Scalar, w.nq)
+			for i := range e {
+				e[i] = s.NonZeroScalar()
+			}
+			var err error
+			if p, err = w.getProver(e); err != nil {
+				r.violate("prove-error", "getProver fails for a second challenge vector", map[string]any{"err": err.Error()})
+				return nil
+			}
+		}
+		var err error
+		if prf, err = proof.HashProve(s, protoName, p); err != nil {
+			r.violate("prove-error", "the honest prover fails when run a second time", map[string]any{"err": err.Error()})
+			return nil
+		}
+	case "eqviol":
+		var err error
+		inner := w.prover
+		ec := &eqCtx{s: s, field: eqFields[adv.A-1], idx: adv.B - 1}
+		prf, err = proof.HashProve(s, protoName, func(ctx proof.ProverContext) error {
+			ec.ProverContext = ctx
+			return inner(ec)
+		})
+		if err != nil || !ec.done {
+			return fmt.Errorf("harness: equation forger failed (altered=%v): %v", ec.done, err)
+		}
+	case "simboth":
+		var err error
+		Xb, Yb, prf, err = r.biffleSimulate(w)
+		if err != nil {
+			return fmt.Errorf("harness: biffle simulator failed: %w", err)
+		}
 	case "detach":
 		var err error
 		Xb, Yb, prf, err = r.forgeDetached(w)
@@ -599,7 +653,7 @@ func (r *replayer) run(w *world) error {
 		verifier = shuffle.BiffleVerifier(s, G, H, [2]kyber.Point{X[0][0], X[0][1]}, [2]kyber.Point{Y[0][0], Y[0][1]},
 			[2]kyber.Point{Xb[0][0], Xb[0][1]}, [2]kyber.Point{Yb[0][0], Yb[0][1]})
 	case "seq":
-		xu, yu, xd, yd := shuffle.GetSequenceVerifiable(s, X, Y, Xb, Yb, w.e)
+		xu, yu, xd, yd := shuffle.GetSequenceVerifiable(s, X, Y, Xb, Yb, e)
 		verifier = shuffle.Verifier(s, G, H, xu, yu, xd, yd)
 	}
 	err := proof.HashVerify(s, protoName, verifier, prf)
@@ -717,14 +771,33 @@ func (r *replayer) runSimple(w *world, adv, ver Step) error {
 		r.res.Skip("unwitnessed-output-class")
 		return nil
 	}
+	ss0 := new(shuffle.SimpleShuffle).Init(s, w.k)
 	prove := func() ([]byte, error) {
-		ss := new(shuffle.SimpleShuffle).Init(s, w.k)
-		return proof.HashProve(s, protoName, func(ctx proof.ProverContext) error {
+		ss := ss0
+		if adv.F != "reprove" {
+			ss = new(shuffle.SimpleShuffle).Init(s, w.k)
+		}
+		var ec *eqCtx
+		prf, err := proof.HashProve(s, protoName, func(ctx proof.ProverContext) error {
+			if adv.F == "eqviol" {
+				ec = &eqCtx{ProverContext: ctx, s: s, field: eqFields[adv.A-1], idx: adv.B - 1}
+				ctx = ec
+			}
 			return ss.Prove(G, w.gamma, w.x, y, s.RandomStream(), ctx)
 		})
+		if err == nil && ec != nil && !ec.done {
+			err = fmt.Errorf("harness: equation forger altered nothing")
+		}
+		return prf, err
 	}
 	prf, err := prove()
+	if err == nil && adv.F == "reprove" {
+		prf, err = prove() // the same SimpleShuffle object proves a second time
+	}
 	if err != nil {
+		if strings.HasPrefix(err.Error(), "harness:") {
+			return err
+		}
 		if ver.Must == "acc" {
 			r.violate("prove-error", "SimpleShuffle.Prove failed on an honest instance", map[string]any{"err": err.Error()})
 		}
@@ -763,6 +836,109 @@ func (r *replayer) runSimple(w *world, adv, ver Step) error {
 	err = proof.HashVerify(s, protoName, func(ctx proof.VerifierContext) error { return vs.Verify(G, Gamma, ctx) }, prf)
 	r.judge(w, adv, ver, err)
 	return nil
+}
+
+// ---------------------------------------------------------------- one forger per verification equation
+
+// transcript fields that occur in exactly one verification equation (see Shuffle.tla, EquationFamilies)
+var eqFields = []string{"W", "Lambda1", "Lambda2", "A", "C", "Theta"}
+
+// eqCtx wraps the real prover context of an HONEST prover run and replaces one commitment of the message being Put,
+// before it is hashed into the next challenge: the rest of the run stays consistent with the altered transcript, so
+// exactly one verification equation fails.
+type eqCtx struct {
+	proof.ProverContext
+	s     *suites.S
+	field string
+	idx   int
+	done  bool
+}
+
+func (c *eqCtx) Put(message any) error {
+	if !c.done {
+		v := reflect.ValueOf(message)
+		for v.Kind() == reflect.Pointer || v.Kind() == reflect.Interface {
+			v = v.Elem()
+		}
+		if v.Kind() == reflect.Struct {
+			if f := v.FieldByName(c.field); f.IsValid() {
+				switch {
+				case f.Kind() == reflect.Slice && c.idx < f.Len():
+					el := f.Index(c.idx)
+					if p, ok := el.Interface().(kyber.Point); ok {
+						q, _ := c.s.AlterPoint(p)
+						el.Set(reflect.ValueOf(q))
+						c.done = true
+					}
+				case f.Kind() == reflect.Interface && f.CanSet():
+					if p, ok := f.Interface().(kyber.Point); ok {
+						q, _ := c.s.AlterPoint(p)
+						f.Set(reflect.ValueOf(q))
+						c.done = true
+					}
+				}
+			}
+		}
+	}
+	return c.ProverContext.Put(message)
+}
+
+// ---------------------------------------------------------------- biffle: both branches simulated
+
+// biffleSimulate: unrelated outputs, every Rep of both branches simulated (V = w*P + r*B) with self-chosen
+// sub-challenges w that do not sum to the challenge; transcript in the library's layout (8 V, 2 sub-challenges,
+// responses for beta0, beta1 per branch).
+func (r *replayer) biffleSimulate(w *world) ([][]kyber.Point, [][]kyber.Point, []byte, error) {
+	s := w.s
+	X, Y := w.X[0], w.Y[0]
+	Xb, Yb := make([]kyber.Point, 2), make([]kyber.Point, 2)
+	for i := range Xb {
+		rr, mm := s.NonZeroScalar(), s.NonZeroScalar()
+		Xb[i] = s.Point().Mul(rr, w.G)
+		Yb[i] = s.Point().Add(s.Point().Mul(rr, w.H), s.Point().Mul(mm, w.G))
+	}
+	sub := func(a, b kyber.Point) kyber.Point { return s.Point().Sub(a, b) }
+	type st struct {
+		p    kyber.Point
+		x    int
+		base kyber.Point
+	}
+	branches := [2][4]st{
+		{{sub(Xb[0], X[0]), 0, w.G}, {sub(Yb[0], Y[0]), 0, w.H}, {sub(Xb[1], X[1]), 1, w.G}, {sub(Yb[1], Y[1]), 1, w.H}},
+		{{sub(Xb[0], X[1]), 1, w.G}, {sub(Yb[0], Y[1]), 1, w.H}, {sub(Xb[1], X[0]), 0, w.G}, {sub(Yb[1], Y[0]), 0, w.H}},
+	}
+	prover := func(ctx proof.ProverContext) error {
+		wch := []kyber.Scalar{s.NonZeroScalar(), s.NonZeroScalar()}
+		resp := [2][2]kyber.Scalar{{s.NonZeroScalar(), s.NonZeroScalar()}, {s.NonZeroScalar(), s.NonZeroScalar()}}
+		for b, br := range branches {
+			for _, t := range br {
+				V := s.Point().Add(s.Point().Mul(wch[b], t.p), s.Point().Mul(resp[b][t.x], t.base))
+				if err := ctx.Put(V); err != nil {
+					return err
+				}
+			}
+		}
+		c := s.Scalar()
+		if err := ctx.PubRand(c); err != nil {
+			return err
+		}
+		if s.Scalar().Add(wch[0], wch[1]).Equal(c) {
+			return fmt.Errorf("degenerate")
+		}
+		if err := ctx.Put(wch); err != nil {
+			return err
+		}
+		for b := range branches {
+			for x := 0; x < 2; x++ {
+				if err := ctx.Put(resp[b][x]); err != nil {
+					return err
+				}
+			}
+		}
+		return nil
+	}
+	prf, err := proof.HashProve(s, protoName, prover)
+	return [][]kyber.Point{Xb}, [][]kyber.Point{Yb}, prf, err
 }
 
 // ---------------------------------------------------------------- biffle: component tamper + best-effort prover
